@@ -181,7 +181,7 @@ def one_rotation(ck, codes, seeds, wcs, rot, W, first_vec, out):
         v["W"], v["rot"], v["vec"] = W, rot, first_vec + i
     out.setdefault("gen_states", res.distinct)
     runs = replay_vectors(ck, vs, "vectors_rot%d" % rot, 768)
-    nsh = 8
+    nsh = 8 if ck.thorough else 5
     shards = [runs[i::nsh] for i in range(nsh)]
     results = vlib.parallel(lambda i: judge(ck, shards[i], "runs_r%d_%02d" % (rot, i), codes, timeout=2500), range(nsh), n=nsh)
     rejected, accepted = [], []
@@ -300,14 +300,24 @@ def addr_part(ck, codes, out):
         ck.run_vh(["drive", "C15", "-part", "addr", "-out", tp, "-tier", ck.tier, "-seed", ck.seed, "-shard", i, "-shards", nsh])
         return tp
     traces = vlib.parallel(drive, range(nsh), n=nsh)
+    # the 'different whenever an input differs' clause is one more event, judged with shard 0: all recorded addresses
+    norm = lambda rs: [{k: v for k, v in r_.items() if k != "_ok"} for r_ in rs]
+    allrows = [{k: e[k] for k in ROWF} for tp in traces for e in vlib.read_ndjson(tp) if e.get("k") == "Addr" and e["err"] == "" and e["addr"]]
+    ev0 = [e for e in vlib.read_ndjson(traces[0]) if e.get("k") != "End"] + [{"k": "Distinct", "rows": allrows}]
+    vlib.write_ndjson(traces[0], ev0 + [{"k": "End", "events": len(ev0)}])
 
     def val(tp):
         res, rej = ck.validate_events(MOD, CFG, tp, timeout=2500, name=os.path.basename(tp)[:-7], heap_gb=4, extra_files={"codes.ndjson": codes})
         return res, rej
     events, rejected, inputs = [], [], set()
+    distinct_rejected, dnotes = False, {}
     for tp, (res, rej) in zip(traces, vlib.parallel(val, traces, n=nsh)):
         evs = [e for e in vlib.read_ndjson(tp) if e.get("k") != "End"]
         bad = {r_["line"] for r_ in rej}
+        if evs[-1]["k"] == "Distinct":
+            distinct_rejected = len(evs) in bad
+            dnotes = {1: [t[2:] for t in res.notes if t[1] == len(evs)]}
+            evs = evs[:-1]
         for i, e in enumerate(evs):
             e["_ok"] = (i + 1) not in bad
             events.append(e)
@@ -344,14 +354,13 @@ def addr_part(ck, codes, out):
     rows = [dict({k: e[k] for k in ROWF}, _ok=e["_ok"]) for e in events if e["k"] == "Addr" and e["err"] == "" and e["addr"]]
     for e in rows:
         inputs.add((e["ver"], e["pub"], e["wc_set"], e["wc"], e["sub"], e["has_net"], e["net"]))
-    norm = lambda rs: [{k: v for k, v in r_.items() if k != "_ok"} for r_ in rs]
-    rej, notes = judge(ck, [{"k": "Distinct", "rows": norm(rows)}], "distinct_all", codes)
-    out["distinct_all"] = "rejected" if rej else "accepted"
-    if rej:
+    out["distinct_all"] = "rejected" if distinct_rejected else "accepted"
+    if distinct_rejected:
+        # is it a consequence of events already reported? then it holds over the accepted ones
         okrows = norm([r_ for r_ in rows if r_["_ok"]])
         rej2, notes2 = quiet_judge(ck, [{"k": "Distinct", "rows": okrows}], "distinct_ok", codes)
         if rej2 or not rejected:
-            w = first_note(notes2 if rej2 else notes, 1, "distinct")
+            w = first_note(notes2 if rej2 else dnotes, 1, "distinct")
             try:
                 col = json.loads(w)
                 vers = sorted({i["ver"] for i in col["inputs"]})
@@ -543,15 +552,24 @@ def canaries(ck, codes, send, addr):
 
 
 # ---------------------------------------------------------------------------------------------- entry points
-def prepare_codes(ck):
+def drive_codes(ck):
     raw = os.path.join(ck.work, "codes_raw.ndjson")
     ck.run_vh(["drive", "C15", "-part", "codes", "-out", raw])
     codes = strip_end(raw, os.path.join(ck.work, "codes.ndjson"))
-    res, rej = ck.validate_events(MOD, CFG, raw, name="codes", extra_files={"codes.ndjson": codes})
     evs = [e for e in vlib.read_ndjson(raw) if e.get("k") != "End"]
-    if len([e for e in evs if e["k"] == "Code"]) + len([e for e in evs if e["k"] == "Panic"]) != 12:
+    if len([e for e in evs if e["k"] in ("Code", "Panic")]) != 12:
         raise Infra("code driver did not cover the 12 supported versions")
-    return codes, evs, rej
+    return raw, codes, evs
+
+
+def judge_codes(ck, raw, codes):
+    res, rej = ck.validate_events(MOD, CFG, raw, name="codes", extra_files={"codes.ndjson": codes})
+    return rej
+
+
+def prepare_codes(ck):
+    raw, codes, evs = drive_codes(ck)
+    return codes, evs, judge_codes(ck, raw, codes)
 
 
 def run(ck):
@@ -564,25 +582,32 @@ def run(ck):
                        "mnemonic -> key derivation (PBKDF2) is not part of the statement: DefaultWalletFromSeed is judged against the key SeedToPrivateKey derives",
                        "scripted chain answers errors as (0, error)"]
     ck.build_vh()
-    codes, cevs, crej = prepare_codes(ck)
-    if crej:
-        for r_ in crej:
-            e = r_["event"]
-            ck.report("C15:code:%s" % e.get("ver"), "the code cell attached for %s is not the published code (hash %s)" % (e.get("ver"), e.get("hash")),
-                      {"kind": "code", "event": e})
-        ck.notes.append("code cells are not the published ones: address and send parts not run")
-        return ck.finish(rule=RULE, distinct=0)
-    send, addr, errs = {}, {}, []
+    raw, codes, cevs = drive_codes(ck)
+    send, addr, errs, cres = {}, {}, [], {}
 
     def guard(f, out):
         try:
             f(ck, codes, out)
         except BaseException as ex:        # noqa
             errs.append(ex)
-    ta = threading.Thread(target=guard, args=(addr_part, addr))
-    ta.start()
+
+    def codes_job(ck, codes, out):
+        out["rej"] = judge_codes(ck, raw, codes)
+    threads = [threading.Thread(target=guard, args=(addr_part, addr)), threading.Thread(target=guard, args=(codes_job, cres))]
+    for t in threads:
+        t.start()
     guard(send_part, send)
-    ta.join()
+    for t in threads:
+        t.join()
+    if cres.get("rej"):
+        # everything else is derived from the code cells: report only this
+        for r_ in cres["rej"]:
+            e = r_["event"]
+            ck.report("C15:code:%s" % e.get("ver"), "the code cell attached for %s is not the published code (hash %s)" % (e.get("ver"), e.get("hash")),
+                      {"kind": "code", "event": e})
+        ck.violations = [v for v in ck.violations if v["key"].startswith("C15:code:")]
+        ck.notes.append("code cells are not the published ones: the address and send parts are not judged")
+        return ck.finish(rule=RULE, distinct=0)
     if errs:
         raise errs[0]
     canaries(ck, codes, send, addr)
